@@ -6,6 +6,9 @@ CONSTANTS
   AutoOpts <- AutoNone
   RVs <- RVplain
   UnsubModes = {"handler"}
+  BulkModes = {}
+  BulkLens = {}
+  WithClear = FALSE
   Forms = {"inst"}
   NoErrs = {FALSE}
   RaiseTypes <- TA
